@@ -1,12 +1,14 @@
 import Sucds.Proofs.C14Msb
 import Sucds.Proofs.Rank9Full
-import Sucds.Model.DArray
+import Sucds.Model.Dacs
 /-! C15, part A (1): the broadword primitives, `needed_bits`, the Rank9 index builders and the
     DArray index builders produce the same *values* in every build configuration. -/
 set_option linter.unusedSimpArgs false
 set_option linter.unusedVariables false
 namespace Sucds.Config
 open Sucds
+
+theorem bind_ok {α β} (v : α) (f : α → R β) : (Except.ok v : R α).bind f = f v := rfl
 
 /-! ### primitives -/
 
@@ -54,10 +56,10 @@ theorem R9_new_cfg (c c' : Cfg) (bv : BV) : R9.new c bv = R9.new c' bv := by
   unfold R9.new; rw [buildRank_cfg c c']
 theorem R9_new_fun (c c' : Cfg) : R9.new c = R9.new c' := funext (R9_new_cfg c c')
 
-theorem prefixPop_cfg (c c' : Cfg) (ws : Array Nat) (i : Nat) : prefixPop c ws i = prefixPop c' ws i := by
+theorem prefixPop_cfg (c c' : Cfg) (ws : Array Nat) (i : Nat) : R9Index.prefixPop c ws i = R9Index.prefixPop c' ws i := by
   induction i with
   | zero => rfl
-  | succ i ih => unfold prefixPop; rw [ih, popcountN_cfg c c']
+  | succ i ih => unfold R9Index.prefixPop; rw [ih, popcountN_cfg c c']
 
 theorem prefixZ_cfg (c c' : Cfg) (ws : Array Nat) (i : Nat) : R9Index.prefixZ c ws i = R9Index.prefixZ c' ws i := by
   unfold R9Index.prefixZ; rw [prefixPop_cfg c c']
